@@ -873,7 +873,229 @@ Proof.
               | (if ?c then _ else _) = _ => destruct c
               | match ?o with _ => _ end = _ => destruct o eqn:?
               end; try discriminate; injection H as <- _; cbn [depth]; lia).
-  - cbn [recd] in *. congruence.
-  - cbn [recd] in *. match goal with E : Some _ = Some _ |- _ => injection E as <- end.
-    eapply elems_depth in H; eauto. intros b' v' r' H'. apply IH in H'. lia.
+  cbn [recd] in *. match goal with E : Some _ = Some _ |- _ => injection E as <- end.
+  eapply elems_depth in H; eauto.
+Qed.
+
+(* ================================================================== *)
+(* allocation meter                                                    *)
+
+Definition CC : Z := 96.
+
+Definition cost_tagged (mb : Z) (rec : option (bytes -> pres)) (crec : bytes -> Z)
+           (c : N) (l r : bytes) : Z :=
+  if (c =? 43) || (c =? 45) then (if utf8_valid l then zlen l else ERRMSG)
+  else if c =? 58 then
+    (if utf8_valid l then match parse_i64 l with Some _ => 0%Z | None => ERRMSG end
+     else ERRMSG)
+  else if c =? 36 then cost_bulk mb l r
+  else if c =? 42 then
+    (if utf8_valid l then
+       match parse_usize l with
+       | None => ERRMSG
+       | Some n =>
+           match rec with
+           | None => ERRMSG
+           | Some p => cost_elems p crec (S (length r)) (Z.to_N n) r
+           end
+       end
+     else ERRMSG)
+  else match l with [] => 0%Z | _ => ERRMSG end.
+
+Definition cost_step (mb : Z) (rec : option (bytes -> pres)) (crec : bytes -> Z) (b : bytes) : Z :=
+  match b with
+  | [] => 0%Z
+  | c :: t =>
+      if is_tag c then
+        match split_line t with
+        | None => 0%Z
+        | Some (l, r) => cost_tagged mb rec crec c l r
+        end
+      else
+        match split_line b with
+        | None => 0%Z
+        | Some (l, _) => cost_inline l
+        end
+  end.
+
+Definition costd (mb : Z) (d : nat) : bytes -> Z :=
+  match d with O => fun _ => 0%Z | S d' => cost mb d' end.
+
+Lemma cost_eq mb d b : cost mb d b = cost_step mb (recd mb d) (costd mb d) b.
+Proof. destruct d; reflexivity. Qed.
+
+Definition res_bound (b : bytes) (res : pres) (cst : Z) : Prop :=
+  (0 <= cst)%Z /\
+  match res with
+  | PDone _ r => (cst + ELEM <= CC * (zlen b - zlen r))%Z
+  | _ => (cst <= CC * zlen b + ERRMSG)%Z
+  end.
+
+Definition bounded (p : bytes -> pres) (c : bytes -> Z) : Prop :=
+  forall b, res_bound b (p b) (c b).
+
+Ltac zl := cbv beta iota; unfold inline_cost in *; unfold zlen, CC, ELEM, ERRMSG in *;
+           repeat (progress cbn [length] in * || rewrite app_length in * );
+           lia.
+
+Lemma cost_elems_bound p c : good p -> bounded p c ->
+  forall fuel n r acc, (length r < fuel)%nat ->
+  (0 <= cost_elems p c fuel n r)%Z /\
+  match elems p fuel n r acc with
+  | PDone _ r' => (cost_elems p c fuel n r <= CC * (zlen r - zlen r'))%Z
+  | _ => (cost_elems p c fuel n r <= CC * zlen r + ERRMSG)%Z
+  end.
+Proof.
+  intros Hg Hb fuel; induction fuel as [|f IH]; intros n r acc Hf; [lia|].
+  cbn [elems cost_elems]. destruct (n =? 0). { split; [lia|zl]. }
+  pose proof (Hg r) as Hgr. pose proof (Hb r) as [Hc0 Hbr].
+  destruct (p r) as [v r1|k|e r1| |]; cbn in Hgr; try (split; [assumption|exact Hbr]).
+  destruct Hgr as (pre & -> & Hpre).
+  assert (Hf1 : (length r1 < f)%nat) by (rewrite app_length in Hf; lia).
+  destruct (IH (N.pred n) r1 (v :: acc) Hf1) as [H0 H1].
+  split; [unfold ELEM; lia|].
+  destruct (elems p f (N.pred n) r1 (v :: acc)); zl.
+Qed.
+
+Lemma parse_bulk_done mb l r v r' : parse_bulk mb l r = PDone v r' ->
+  (v = Bulk None /\ r' = r) \/ (exists d, v = Bulk (Some d) /\ r = d ++ 13 :: 10 :: r').
+Proof.
+  unfold parse_bulk. intros H.
+  destruct (utf8_valid l); [|discriminate].
+  destruct (parse_i64 l) as [n|]; [|discriminate].
+  destruct (n =? -1)%Z. { injection H as <- <-. now left. }
+  destruct ((n <? 0)%Z || (mb <? n)%Z); [discriminate|].
+  destruct (USIZE_MAX <? n + 2)%Z; [discriminate|].
+  destruct (Z.of_nat (length r) <? n + 2)%Z; [discriminate|].
+  pose proof (firstn_skipn (Z.to_nat n) r) as Hfs.
+  destruct (skipn (Z.to_nat n) r) as [|x [|y r2]] eqn:Es; try discriminate.
+  destruct ((x =? 13) && (y =? 10)) eqn:E; [|discriminate].
+  apply andb_true_iff in E as [E1 E2]. apply N.eqb_eq in E1, E2. subst x y.
+  injection H as <- <-. right. eexists. split; [reflexivity|]. now symmetry.
+Qed.
+
+Lemma cost_bulk_bound mb c l r :
+  res_bound (c :: l ++ 13 :: 10 :: r) (parse_bulk mb l r) (cost_bulk mb l r).
+Proof.
+  unfold cost_bulk, res_bound.
+  pose proof (parse_bulk_suffix mb l r) as Hs.
+  destruct (parse_bulk mb l r) as [v r'|k|e r'| |] eqn:E; cbn in Hs; try contradiction.
+  - apply parse_bulk_done in E as [[-> ->]|(d & -> & ->)].
+    + split; cbv beta iota; zl.
+    + split; cbv beta iota; zl.
+  - split; cbv beta iota; zl.
+  - destruct Hs as [pre ->]. split; cbv beta iota; zl.
+Qed.
+
+Lemma tagged_cost_bound mb rec crec c l r :
+  (forall p, rec = Some p -> good p /\ bounded p crec) ->
+  res_bound (c :: l ++ 13 :: 10 :: r) (tagged mb rec c l r) (cost_tagged mb rec crec c l r).
+Proof.
+  intros Hrec. unfold tagged, cost_tagged.
+  destruct (c =? 43). { cbn [orb]. destruct (utf8_valid l); split; zl. }
+  destruct (c =? 45). { cbn [orb]. destruct (utf8_valid l); split; zl. }
+  cbn [orb]. destruct (c =? 58).
+  { destruct (utf8_valid l); [|split; zl]. destruct (parse_i64 l); split; zl. }
+  destruct (c =? 36). { apply cost_bulk_bound. }
+  destruct (c =? 42).
+  { destruct (utf8_valid l); [|split; zl]. destruct (parse_usize l) as [n|]; [|split; zl].
+    destruct rec as [p|]; [|split; zl]. destruct (Hrec p eq_refl) as [Hg Hb].
+    destruct (cost_elems_bound p crec Hg Hb (S (length r)) (Z.to_N n) r [] ltac:(lia)) as [H0 H1].
+    pose proof (elems_suffix p Hg (S (length r)) (Z.to_N n) r [] ltac:(lia)) as Hs.
+    split; [exact H0|].
+    destruct (elems p (S (length r)) (Z.to_N n) r []) as [v r'|k|e r'| |]; cbn in Hs; try contradiction.
+    - destruct Hs as [pre ->]. zl.
+    - zl.
+    - zl. }
+  destruct l; split; zl.
+Qed.
+
+Lemma toks_len_zero : inline_tokens [] = Some [].
+Proof. reflexivity. Qed.
+
+Lemma cost_step_bound mb rec crec :
+  (forall p, rec = Some p -> good p /\ bounded p crec) ->
+  bounded (parse_step mb rec) (cost_step mb rec crec).
+Proof.
+  intros Hrec b. unfold parse_step, cost_step. destruct b as [|c t]; [split; zl|].
+  destruct (is_tag c).
+  - destruct (split_line t) as [[l r]|] eqn:Es; [|split; zl].
+    apply split_line_spec in Es as [-> _]. now apply tagged_cost_bound.
+  - destruct (split_line (c :: t)) as [[l r]|] eqn:Es; [|split; zl].
+    apply split_line_spec in Es as [Eb _]. rewrite Eb.
+    unfold parse_inline, cost_inline. destruct (utf8_valid l); [|split; zl].
+    destruct l as [|x l'].
+    + rewrite toks_len_zero. split; zl.
+    + destruct (inline_tokens (x :: l')) as [[|t1 ts]|]; split; zl.
+Qed.
+
+Lemma parse_cost_bounded mb d : bounded (parse mb d) (cost mb d).
+Proof.
+  induction d as [|d IH]; intros b; rewrite parse_eq, cost_eq; apply cost_step_bound; cbn [recd costd].
+  - discriminate.
+  - intros p [= <-]. split; [apply parse_good|exact IH].
+Qed.
+
+Lemma alloc_bound b : (0 <= alloc b <= CC * zlen b + ERRMSG)%Z.
+Proof.
+  unfold alloc. destruct (parse_cost_bounded MAX_BULK MAX_DEPTH b) as [H0 H1].
+  split; [exact H0|].
+  pose proof (parse_good MAX_BULK MAX_DEPTH b) as Hg.
+  destruct (parse MAX_BULK MAX_DEPTH b) as [v r|k|e r| |]; cbn in Hg; try lia.
+  destruct Hg as (pre & -> & _). zl.
+Qed.
+
+(* ================================================================== *)
+(* statements in the form used by props/C20.v, C21.v, C22.v            *)
+
+Lemma wf_roundtrip v r :
+  wf MAX_BULK MAX_DEPTH v -> decode (encode v ++ r) = Done v r.
+Proof.
+  intros (Hr & Hc & Hd). rewrite decode_roundtrip by assumption. now rewrite sanitize_clean.
+Qed.
+
+Lemma wf_prefix v p t :
+  wf MAX_BULK MAX_DEPTH v -> p ++ t = encode v -> t <> [] -> exists k, decode p = More k p.
+Proof. intros (Hr & Hc & Hd). now apply decode_prefix. Qed.
+
+Lemma inline_frame_roundtrip l r :
+  wf_inline l -> decode ((l ++ crlf) ++ r) = Done (inline_value l) r.
+Proof. intros H. unfold decode, decode_with. now rewrite inline_roundtrip. Qed.
+
+Lemma inline_frame_prefix l p t :
+  wf_inline l -> p ++ t = l ++ crlf -> t <> [] -> decode p = More false p.
+Proof. intros H E Ht. unfold decode, decode_with. now rewrite (inline_prefix _ _ l p t). Qed.
+
+Lemma decode_safe b : decode b <> Panic /\ decode b <> Abort.
+Proof.
+  pose proof (decode_good b) as H. destruct (decode b); try contradiction; split; discriminate.
+Qed.
+
+Lemma decode_depth b v r : decode b = Done v r -> (depth v <= S MAX_DEPTH)%nat.
+Proof.
+  unfold decode, decode_with. destruct (parse MAX_BULK MAX_DEPTH b) eqn:E; try discriminate.
+  intros [= <- <-]. eapply parse_depth; eauto.
+Qed.
+
+Lemma clean_sanitize v : clean (sanitize v).
+Proof.
+  induction v as [s|s|z|o|l IH|] using rv_ind'; cbn [sanitize clean]; auto using clean_map_san.
+  induction IH as [|x t Hx _ IHt]; cbn [map]; [exact I|split; assumption].
+Qed.
+
+Lemma i64_max_ok : mb_ok I64_MAX.
+Proof. unfold mb_ok, I64_MAX. lia. Qed.
+
+Lemma reply_one_frame v :
+  repr I64_MAX v -> decode_with I64_MAX (depth v) (encode v) = Done (sanitize v) [].
+Proof.
+  intros Hr. unfold decode_with.
+  rewrite <- (app_nil_r (encode v)) at 1.
+  now rewrite (roundtrip _ i64_max_ok v (depth v) [] Hr (le_n _)).
+Qed.
+
+Lemma reply_one_frame_limits v :
+  repr MAX_BULK v -> (depth v <= MAX_DEPTH)%nat -> decode (encode v) = Done (sanitize v) [].
+Proof.
+  intros Hr Hd. rewrite <- (app_nil_r (encode v)) at 1. now apply decode_roundtrip.
 Qed.
